@@ -23,7 +23,7 @@ def oracle(c, events, dumps):
         p = stategen.parse_dump(d)
         order = sorted(p["segs"], key=lambda x: int(x[1:]))
         for i, (l, h, _) in enumerate(c.trains):
-            tid = "t%d" % i
+            tid = stategen.tname(i)
             if tid not in p["trains"] or tid not in p["pos"]:
                 viol.append(("getter-missing-train", "train %s missing in the dump" % tid, k)); continue
             listing = []; kinds = []
@@ -40,7 +40,7 @@ def oracle(c, events, dumps):
                 allowed = {"L" if t == 0 else "R" for t in kinds}
                 if tr["ori"] not in allowed: viol.append(("orientation-not-reported", "%s orientation %s, reported kinds %s" % (tid, tr["ori"], kinds), k))
                 if ori != tr["ori"]: viol.append(("orientation-getters-differ", "%s position query says %s, train state %s" % (tid, ori, tr["ori"]), k))
-        ids = [("t%d" % i) for i in range(len(c.trains)) if p["trains"].get("t%d" % i, {}).get("on") == "1"]
+        ids = [stategen.tname(i) for i in range(len(c.trains)) if p["trains"].get(stategen.tname(i), {}).get("on") == "1"]
         ot = [l for l in d if l.startswith("ontrack ")]
         if ot and ot[0].split()[1] != (",".join(ids) if ids else "-"):
             viol.append(("trains-on-track-list", "bidib_get_trains_on_track %s vs on_track flags %s" % (ot[0], ids), k))
